@@ -214,6 +214,25 @@ var avPositions = func() map[string]avPos {
 	m[st+"env#expr"] = avPos{step: "run: echo\nenv: @@\n"}
 	m[st+"continue-on-error"] = avPos{step: "run: echo\ncontinue-on-error: @@\n"}
 	m[st+"timeout-minutes"] = avPos{step: "run: echo\ntimeout-minutes: @@\n"}
+	// copies inside a job that calls a reusable workflow (Availability.tla, CallCopies)
+	m["jobs.<job_id>.if#braces-call"] = avPos{job: "if: @@\n" + avCallUses, call: true}
+	for id, pos := range m {
+		if pos.call {
+			continue
+		}
+		for _, sec := range []string{"concurrency", "strategy", "services"} {
+			if strings.HasPrefix(id, "jobs.<job_id>."+sec) {
+				cp := pos
+				cp.call = true
+				cp.job += avCallUses
+				if strings.Contains(id, "#") {
+					m[id+"-call"] = cp
+				} else {
+					m[id+"#call"] = cp
+				}
+			}
+		}
+	}
 	return m
 }()
 
